@@ -273,7 +273,7 @@ impl ops::Neg for Value {
 
     fn neg(self) -> Self::Output {
         let a = f64::try_from(&self).unwrap_or(f64::NAN);
-        Value::Number(0f64 - a)
+        Value::Number(-a)
     }
 }
 
